@@ -422,6 +422,7 @@ class RealBackend(object):
         self.flush_faults = f.get("flushes", {})
         self.ctx_faults = {k: tuple(v) for k, v in f.get("ctx", {}).items()}
         self.cb_faults = f.get("callbacks", {})
+        self.preanswered = {}
         self.yield_only = bool(spec.get("yield_only"))
         pr = spec.get("prio", {})
         self.prio_policy = pr.get("policy", "default")
@@ -727,6 +728,13 @@ class RealBackend(object):
             it = (SimItemEq if self.spec.get("item_eq") else SimItem)(self.current[kind], tok, key, self)
         self.items[tok] = it
         self.ev("item", tok, it.batch.bid)
+        if self.spec.get("cache_hits") and isinstance(key, int) and key % 3 == 0 and kind not in self.debug_kinds \
+                and ("%d:%s" % (kind, key)) not in self.item_faults:
+            # a local cache hit: the request is answered the moment it is made, while the batch
+            # it was registered with is still pending (it will be flushed for the others)
+            self.fired("request_answered_at_creation")
+            self.preanswered[tok] = "%d:%s" % (kind, key)
+            it.set_value(self.preanswered[tok])
         return it
 
     def _item_computed(self, it):
@@ -1392,6 +1400,9 @@ class RealBackend(object):
                 return
             if plan and plan.get("raise_at") == idx:
                 self._flush_raise(kind, ordn, plan, rec)
+            if it.tok in self.preanswered:
+                rec["set"][it.tok] = ("V", self.preanswered[it.tok])
+                continue
             f = self.item_faults.get("%d:%s" % (kind, it.key))
             if f == "unset":
                 self.fired("item_unset")
